@@ -225,6 +225,12 @@ static void cb (void *arg)
     case 'a': nd = new_desc ('p', 0, 0); ts.tv_sec = d->a1; ts.tv_nsec = d->a2;
               id = timer_set_absolute (cb, nd, &ts); logf_ (":s%ld", id); break;
     case 'r': id = timer_set_relative (cb, d, d->a1); logf_ (":s%ld", id); break;
+    case 'j': /* a slow callback: the clock moves on by a1 ms while it runs (timers that expire meanwhile stay on the active
+               * list, overdue), then it sets a zero-offset timer - what gids_update() does on SIGHUP */
+              pthread_mutex_lock (&H);
+              vnow.tv_nsec += (d->a1 % 1000) * 1000000L; vnow.tv_sec += d->a1 / 1000 + vnow.tv_nsec / 1000000000L; vnow.tv_nsec %= 1000000000L;
+              pthread_mutex_unlock (&H);
+              nd = new_desc ('p', 0, 0); id = timer_set_relative (cb, nd, 0); logf_ (":j%ld:s%ld", d->a1, id); break;
     case 'x': nd = new_desc ('p', 0, 0); id = timer_set_relative (cb, nd, d->a1);       /* set, then cancel it again */
               logf_ (":s%ld:c%d", id, timer_cancel (id)); break;
     default: break;
@@ -313,7 +319,7 @@ static int kind_args (char **w, int n, int i, int *kind, long *a1, long *a2)
     *kind = w[i][0];
     switch (*kind) {
     case 'p': return i + 1 == n ? 0 : -1;
-    case 'c': case 's': case 'r': case 'x': if (i + 2 != n) return -1; *a1 = atol (w[i + 1]); return 0;
+    case 'c': case 's': case 'r': case 'x': case 'j': if (i + 2 != n) return -1; *a1 = atol (w[i + 1]); return 0;
     case 'a': if (i + 3 != n) return -1; *a1 = atol (w[i + 1]); *a2 = atol (w[i + 2]); return 0;
     }
     return -1;
